@@ -239,6 +239,47 @@ def long_datagram_case(count):
     return [] if ok else [("datagram", "long-count-or-order", f"{count} messages in one datagram: {len(p.got)} delivered")]
 
 
+_IL = {
+    1: (0x0102, 0x0304, 0x0506, 0x0708, 0x09, 0x00, 0, b"abc"),
+    2: (0xA1A2, 0x8304, 0xC5C6, 0xD7D8, 0x19, 0x80, 0, b"a different, longer payload"),
+}
+
+
+def interleaved_case(op_a, op_b):
+    """operation A (encode or decode of one message) is preempted at every bytecode boundary inside the library by a
+    complete operation B on another message - what a second thread that encodes / decodes at the same time does (see
+    pvmc/interleave.py): both still return what they return when run alone"""
+    import os
+
+    import someip
+
+    from .. import interleave
+    prefix = os.path.dirname(someip.__file__)
+
+    def op(name):
+        kind, which = name[:-1], int(name[-1])
+        f = _IL[which]
+        if kind == "build":
+            m = mk(*f)
+            return (lambda: bytes(m.build())), ("ok", refcodec.enc_someip(*f))
+        data = refcodec.enc_someip(*f) + b"tail"
+        return (lambda: hdr.SOMEIPHeader.parse(data)), ("ok", (mk(*f), b"tail"))
+
+    fa, want_a = op(op_a)
+    fb, want_b = op(op_b)
+    total, runs = interleave.explore(fa, fb, prefix)
+    out = []
+    if total < 5:
+        out.append(("interleaving", "no-boundaries", f"{op_a}: only {total} bytecode boundaries traced inside {prefix}"))
+    for k, ra, rb in runs:
+        if ra != want_a or rb != want_b:
+            who = "preempted" if ra != want_a else "preempting"
+            out.append(("interleaving", f"{who}-operation-wrong", f"{op_a} preempted at bytecode boundary {k} of {total} by {op_b}: "
+                        f"{op_a} -> {ra!r:.120} (alone {want_a!r:.120}), {op_b} -> {rb!r:.120} (alone {want_b!r:.120})"))
+            break
+    return total, out
+
+
 def check(ctx):
     viols = []
     samples = core.Samples()
@@ -334,7 +375,16 @@ def check(ctx):
         n += 1
         distinct.add(("long", count))
         rec(long_datagram_case(count), dict(kind="long-datagram", count=count))
+    # (j) two encoders / decoders at the same time: one preemption at every bytecode boundary
+    nbound = 0
+    for op_a, op_b in itertools.product(("build1", "parse1"), ("build2", "parse2")):
+        total, res = interleaved_case(op_a, op_b)
+        n += total
+        nbound += total
+        distinct.add(("interleaved", op_a, op_b))
+        rec(res, dict(kind="interleaved", a=op_a, b=op_b))
     cov = dict(
+        interleavings=nbound,
         evaluations=n, distinct_nontrivial=len(distinct), exhaustive=True,
         rule="(a) product of 8 boundary values for each of service/method/client/session x 4 interface versions x "
              "2 settings; (b) all 10 message types x all 11 return codes x boundary payload lengths x 4 suffixes; "
@@ -345,6 +395,8 @@ def check(ctx):
     )
     return core.finish(ctx, "exploration", cov, viols, [
         "width and slice boundaries only, not all 2^64 id combinations or all 65537 payload lengths",
+        "(j): one preemption of an encode / decode by a complete second one, at every bytecode boundary inside the "
+        "library's Python code; not two-sided preemption, not switches inside C functions",
     ])
 
 
@@ -360,6 +412,8 @@ def replay(ctx, body):
         res = raising_handler_case(case["k"], case["exc"], tuple(case["seq"]))
     elif case["kind"] == "long-datagram":
         res = long_datagram_case(case["count"])
+    elif case["kind"] == "interleaved":
+        res = interleaved_case(case["a"], case["b"])[1]
     elif case["kind"] == "datagram":
         res = datagram_case(tuple(case["seq"]), case["tail"])
     else:
